@@ -719,7 +719,7 @@ def c01_jobs():
         seen.add(key)
         jobs.append(Job("rt.cpp", "h_roundtrip", defs=d, unwind=1200, unwindset={("Decoder6decode", None): 5, ("_M_realloc_insert", None): 5, ("_Hashtable", None): 4, ("_M_release", None): 3},
                         tier=tier, in_max=enc_in_max(d), mem_gb=8, variant=variant, timeout=timeout,
-                        sym="payload data bytes, timestamps, interface/vendor ids, typed header fields (CAN id/crc/flags, LIN id/checksum, Ethernet flags), encoder device/stream id (where SYMIDS=1), "
+                        sym="payload data bytes, timestamps, interface/vendor ids, typed header fields (CAN id/crc/flags, LIN id/checksum, Ethernet flags, analog unit/interval/offset, status counters, string characters), encoder device/stream id (where SYMIDS=1), "
                             "sequence-counter start (all 65536 values; concrete 65534 for shapes with 3 or more frames of which some are segments)",
                         outside="common flags and protocol version are concrete per shape (0x33 / 1, variants in thorough); payloads > 136 bytes; more than 3 packets; max frame size > 64 (quick)"))
 
@@ -730,6 +730,13 @@ def c01_jobs():
         ([24], None, {"pkind": 1}), ([24, 24], None, {"pkind": 1, "maxb": 100}), ([16], None, {"pkind": 3}), ([30], None, {"pkind": 8}),
     ):
         add(lens, types, **kw)
+    # analog, capture-module status and interface status payloads built through their builders
+    add([24], None, pkind=7)
+    add([48], [3], pkind=101, maxb=100)
+    add([46], [3], pkind=102, maxb=100)
+    add([48], [3], pkind=101, maxb=48, tier="thorough", timeout=1200)
+    add([46, 24], [3, 3], pkind=102, maxb=100, tier="thorough", timeout=1200)
+    add([40, 24], None, pkind=7, maxb=64, tier="thorough", timeout=1200)
     add([8, 8], None, symids=0, variant="real")
     add([8], None, prior=1)
     add([17], None, maxb=40, prior=1, startc=5)
